@@ -317,3 +317,21 @@ func (db *DB) VerifLeader() VerifLeaderProgress {
 	}
 	return p
 }
+
+var verifRemoveChans sync.Map // *rowStore -> chan time.Duration
+
+// verifRemoveEvery lets a test shorten the 10 s period of removeOldFiles: when
+// the environment variable VERIF_REMOVE_MS is set, the returned channel
+// delivers that duration exactly once per row store (the caller resets its
+// ticker with it). Otherwise the channel never delivers.
+func verifRemoveEvery(rs *rowStore) chan time.Duration {
+	if c, ok := verifRemoveChans.Load(rs); ok {
+		return c.(chan time.Duration)
+	}
+	c := make(chan time.Duration, 1)
+	if ms, err := strconv.Atoi(os.Getenv("VERIF_REMOVE_MS")); err == nil && ms > 0 {
+		c <- time.Duration(ms) * time.Millisecond
+	}
+	actual, _ := verifRemoveChans.LoadOrStore(rs, c)
+	return actual.(chan time.Duration)
+}
